@@ -150,6 +150,7 @@ impl Case {
                 for id in self.fired.borrow().iter() {
                     out.push_str(&format!(" {}", id));
                 }
+                self.fired.borrow_mut().clear();
                 (out, Key::None)
             }
             "ne" => match s.next_expiry() {
@@ -241,8 +242,16 @@ fn main() {
                 }
                 let r = catch_unwind(AssertUnwindSafe(|| c.op(&ws)));
                 match r {
-                    Ok((text, key)) => {
+                    Ok((mut text, key)) => {
                         c.keys.push(key);
+                        // C07: callbacks run only inside run(): anything recorded by another op ran synchronously
+                        if ws[0] != "run" && ws[0] != "runne" && !c.fired.borrow().is_empty() {
+                            text.push_str(" SYNC");
+                            for id in c.fired.borrow().iter() {
+                                text.push_str(&format!(" {}", id));
+                            }
+                            c.fired.borrow_mut().clear();
+                        }
                         writeln!(out, "{}", text).unwrap();
                         let d = c.s.as_ref().unwrap().verif_timers_dump();
                         writeln!(out, "S {}", d).unwrap();
